@@ -97,7 +97,11 @@ def r1_r3(ctx):
     drain = sock_fn(ctx, "_drain_message_queue")
     m = drain.module
     var, popnode = popped_entry_var(ctx, drain)
-    ctx.require(var is not None, "socket._drain_message_queue: no local bound by _message_queue.popleft() (see C01.R1)")
+    if var is None:
+        # the entry being written belongs to THIS call of the drain: two drains overlap whenever two senders are suspended in
+        # writer.drain(); an entry parked on the socket object is overwritten by the second and re-queued twice, the first is lost
+        ctx.violation(R1, "_drain_message_queue:in-flight-entry-is-a-local", m, drain.node, "the popped entry is held in a local variable of the drain call until it is written or re-queued", "no local is bound by _message_queue.popleft(): the in-flight entry is shared between overlapping drains")
+        return
     requeues = drain.calls("_message_queue.appendleft") + drain.calls("_message_queue.append") + drain.calls("_message_queue.insert")
     oserr = [h for h in drain.handlers() if any(t.split(".")[-1] == "OSError" for t in h.meta["types"])]
     if not oserr:
@@ -208,6 +212,21 @@ def r2(ctx):
     var, popnode = popped_entry_var(ctx, drain)
     writes = drain.calls("self._write")
     ctx.require(writes, "socket._drain_message_queue: no self._write call (see C01.R1)")
+    # write faults reach the drain's handler: _write neither catches nor suppresses anything around write()/drain() (a fault
+    # swallowed there leaves the popped command neither written nor re-queued)
+    wfn = sock_fn(ctx, "_write")
+    guards = [x for x in walk_no_nested(wfn.node) if isinstance(x, ast.Try) or (isinstance(x, (ast.With, ast.AsyncWith)) and any(isinstance(i_.context_expr, ast.Call) and (dotted(i_.context_expr.func) or "").split(".")[-1] == "suppress" for i_ in x.items))]
+    ctx.check(not guards, R, "_write:write-faults-propagate", m, (guards[0] if guards else wfn.node), "_write contains no try / suppress: an OSError of write() or drain() always reaches the handler of the drain (retry, reset)", f"`{norm_text(guards[0])[:60]}` can swallow a write fault" if guards else "")
+    # the retry policies are shared constants: nobody writes to their fields (a lifetime or budget changed through one call's
+    # alias changes every later command of the process)
+    pw = []
+    for mm in ctx.repo.modules.values():
+        for x in ast.walk(mm.tree):
+            tg = x.targets if isinstance(x, ast.Assign) else ([x.target] if isinstance(x, (ast.AugAssign, ast.AnnAssign)) else [])
+            for t_ in tg:
+                if isinstance(t_, ast.Attribute) and t_.attr in ("max_lifetime", "max_retries") and not (isinstance(t_.value, ast.Name) and t_.value.id == "self" and False):
+                    pw.append((mm, x))
+    ctx.check(not pw, R, "RetryPolicy:fields-are-never-assigned", pw[0][0] if pw else m, pw[0][1] if pw else None, "no statement of the package assigns max_lifetime / max_retries of a policy object (the RETRY_* constants are shared)", f"{pw[0][0].relpath}: `{norm_text(pw[0][1])[:70]}`" if pw else "")
     for wn, wcall in writes:
         ok = False
         found = "no expiry test dominates the write"
